@@ -47,8 +47,10 @@ def cases(draw, tier):
     scale = draw(st.sampled_from([0.3, 1.0, 0.0, 2.0, None]))
     if isinstance(sc, dict) and sc["cls"] in ("TableChangeScore", "FunctionChangeScore") and scale is not None:
         scale = draw(st.sampled_from([0.2, 0.0, 0.05, 0.4, 0.8]))
+    integral = all(float(v).is_integer() for row in X for v in row)
     return {"params": {"change_score": sc, "bandwidth": bw, "threshold_scale": scale, "level": draw(K.level_strategy),
-                       "min_detection_interval": mdi}, "X": X}
+                       "min_detection_interval": mdi}, "X": X,
+            "as_int64": integral and draw(st.booleans())}
 
 
 def model_scores(params, X):
@@ -68,10 +70,11 @@ def check(case):
     X = np.asarray(case["X"], dtype=float)
     n, p = X.shape
     b = params["bandwidth"]
+    Xin = X.astype(np.int64) if case.get("as_int64") else X  # integer-valued data may arrive as an integer array
     with sut("MovingWindow.fit/transform_scores/predict"):
-        det = K.build(K.detector_spec("MovingWindow", params)).fit(X)
-        scores = det.transform_scores(X)
-        y = det.predict(X)
+        det = K.build(K.detector_spec("MovingWindow", params)).fit(Xin)
+        scores = det.transform_scores(Xin)
+        y = det.predict(Xin)
         thr = float(det.threshold_)
     s = np.asarray(scores, dtype=float).reshape(-1)
     if len(s) != n:
@@ -120,6 +123,8 @@ def check(case):
         classes.append("equal_maxima_in_run")
     if params["threshold_scale"] is None:
         classes.append("tuned")
+    if case.get("as_int64"):
+        classes.append("int64_input")
     if cpts:
         classes.append("has_changepoint")
     return {"nontrivial": bool(cpts), "classes": classes}
